@@ -1,6 +1,7 @@
 import Abyss.Props.C04
 import Abyss.Lemmas.EngineScan
 import Abyss.Lemmas.EngineIter
+import Abyss.Props.C04Gen
 #print axioms Abyss.C04_iter
 #print axioms Abyss.C04_keys_values
 #print axioms Abyss.C04_scan
@@ -10,3 +11,5 @@ import Abyss.Lemmas.EngineIter
 #print axioms Abyss.iterNew_bytes
 #print axioms Abyss.iterNextOffset_bytes
 #print axioms Abyss.iterNext_bytes
+#print axioms Abyss.C04_generated_iter
+#print axioms Abyss.genIterCollect_refines
